@@ -64,7 +64,7 @@ macro "eval_getitem" : tactic => `(tactic|
     strides, itemSel, slicePositions_all, Sel.isFancy, Sel.isAdvanced, advOffset, plainAxis, Except.map, List.filter,
     isScalarResult, normalizeIndexG, normTuple, normLoop, Item.isNewaxis, fullSlices, PD.ndim, fixups, splitNorm,
     Fixes.all, finalize, NPSel.shape, fixTime_all, fixChannel, fixEpoch, listGet, listSlice, selShape, selChan, selMeta,
-    broadcastLen, advAdjacent, axesInPlace, List.filterMap, List.dropWhile, listTake, listSlice_all, filterMap_getElem_range, *])
+    broadcastLen, itemsAdjacent, Item.isAdv, axesInPlace, List.filterMap, List.dropWhile, listTake, listSlice_all, filterMap_getElem_range, *])
 
 /-- 2-D array, selection on the (leading) channel axis: `x[it]`. -/
 theorem getitem_chan_2d (c n : Nat) (data : List Nat) (s0 : Int) (fs : Rat) (l : List Label) (m : Md)
